@@ -30,7 +30,7 @@ VARIABLES
   abandoned, \* abandoned[q]: when the caller dropped the call
   result,    \* set of nonces whose caller got a result
   faulty,    \* are datagram faults being injected
-  pendIn,    \* inbound deadline chosen by the timeout layer for the request about to reach its handler
+  pendIn,    \* pendIn[route]: inbound deadline chosen by the timeout layer for the request with that route (routes are unique per call but for a few odd ones)
   lastCall   \* nonce of the most recent obs.rpc_call (its outbound tmo.set follows at once)
 
 vars == <<l, now, ncfg, calls, started, ended, gone, abandoned, result, faulty, pendIn, lastCall>>
@@ -49,14 +49,14 @@ CancelBound == 250     \* ms, fault-free runs with 1 ms links
 
 Init ==
   /\ l = 1 /\ now = 0 /\ ncfg = Empty /\ calls = Empty /\ started = Empty /\ ended = Empty
-  /\ gone = Empty /\ abandoned = Empty /\ result = {} /\ faulty = FALSE /\ pendIn = NoT /\ lastCall = 0
+  /\ gone = Empty /\ abandoned = Empty /\ result = {} /\ faulty = FALSE /\ pendIn = Empty /\ lastCall = 0
 
 Step(e) == l <= Len(Rec) /\ Cur.ev = e /\ l' = l + 1 /\ now' = Cur.t
 
 TrReset ==
   /\ Step("reset")
   /\ ncfg' = Empty /\ calls' = Empty /\ started' = Empty /\ ended' = Empty /\ gone' = Empty
-  /\ abandoned' = Empty /\ result' = {} /\ faulty' = FALSE /\ pendIn' = NoT /\ lastCall' = 0
+  /\ abandoned' = Empty /\ result' = {} /\ faulty' = FALSE /\ pendIn' = Empty /\ lastCall' = 0
 
 TrCfg ==
   /\ Step("obs.rpc_cfg")
@@ -83,6 +83,8 @@ HdrVal(c) ==
   ELSE CASE c.thdr = "200000000" -> 200000
          [] c.thdr = "700000000" -> 700000
          [] c.thdr = "5000000000" -> 5000000
+         [] c.thdr = "20000000000" -> 20000000
+         [] c.thdr = "120000000000" -> 120000000
          [] c.thdr = "0" -> 0                          \* a zero deadline: expires at once
          [] c.thdr = "18446744073709551615" -> 2000000000
          [] OTHER -> NoT                               \* garbage, overflowing: counts as absent
@@ -116,7 +118,7 @@ TrTmoSet ==
                 /\ want # NoT => Cur.chosen_us = want
                 /\ calls' = [calls EXCEPT ![lastCall].outT = want]
           /\ UNCHANGED pendIn
-     ELSE /\ pendIn' = IF Has(Cur, "chosen_us") THEN Cur.chosen_us ELSE NoT
+     ELSE /\ pendIn' = With(pendIn, Cur.route, IF Has(Cur, "chosen_us") THEN Cur.chosen_us ELSE NoT)
           /\ UNCHANGED calls
   /\ UNCHANGED <<ncfg, started, ended, gone, abandoned, result, faulty, lastCall>>
 
@@ -134,9 +136,10 @@ TrAppStart ==
      /\ ReqFits(c)                                         \* an oversized request is never delivered
      (* C12: a call the caller abandoned long ago is not handed to a handler any more *)
      /\ (Cur.nonce \in DOMAIN abandoned /\ ~faulty) => Cur.t <= abandoned[Cur.nonce] + CancelBound
-     /\ pendIn = Chosen(Def(c.to, "inDef"), HdrVal(c))
-     /\ started' = With(started, Cur.nonce, [t |-> Cur.t, inT |-> pendIn])
-  /\ pendIn' = NoT
+     /\ Cur.route \in DOMAIN pendIn
+     /\ pendIn[Cur.route] = Chosen(Def(c.to, "inDef"), HdrVal(c))
+     /\ started' = With(started, Cur.nonce, [t |-> Cur.t, inT |-> pendIn[Cur.route]])
+  /\ UNCHANGED pendIn          \* the last decision per route stays: odd routes ("", "/") are shared by calls
   /\ UNCHANGED <<ncfg, calls, ended, gone, abandoned, result, faulty, lastCall>>
 
 TrAppEnd ==
